@@ -5,8 +5,8 @@
    stopAllRunnables, /repo 82de565) and fix_c11 P = true (/repo 5b52fc2).  Legacy variants are named
    explicitly (fix_c09 P = false).  [greach P s] = s is reached by a schedule whose callback values
    range over the pool; [good_pool] = distinct pool members have distinct String(). *)
-From Coq Require Import List NArith Bool.
-From GS Require Import Errs LTS Composite CompositeMon CompositeBase CompositeC10 CompositeC11
+From Coq Require Import List NArith Bool Permutation.
+From GS Require Import Errs LTS Composite CompositeMon CompositeBase CompositeC10 CompositeC11 CompositeExactMs
      CompositeLocks CompositeLive CompositeC09 CompositeProgress CompositeExact CompositeMeasure
      CompositeTrace CompositeLink2.
 Import ListNotations.
@@ -76,6 +76,53 @@ Proof.
   - exact (exact_running P s H9 H11 Hp Hr Hf Hm).
   - exact (older_generations_finished P s H9 Hs (greach_reach P s Hr)).
 Qed.
+
+(* C09_exact with multiplicities ("each once" per entry; code with hooks/fix-c09-membership-multiset.patch,
+   fix_ms): the children of the current boot generation are a PERMUTATION of the entries' runnables - a
+   configuration that lists a runnable twice has exactly two goroutines of it.  [good_pool] (distinct pool
+   members have distinct String()) is needed: see C09_exact_refuted_without_good_pool. *)
+Theorem C09_exact_multiset : forall P s,
+  fix_c09 P = true -> fix_ms P = true -> good_pool P -> greach P s ->
+  fsm s = FRunning -> reload_mu s = None ->
+  Permutation (ids (entries_of s)) (map k_child (cur_kids s)).
+Proof. exact exact_running_multiset. Qed.
+
+(* with the name-SET test of /repo 5b52fc2 (fix_ms = false) it is false - H3 of the second audit:
+   configuration [a;a;b], Reload([a;b;b]) is taken in place; afterwards a runs twice and b once while the
+   configuration lists a once and b twice (the set form C09_exact still holds).  The multiset test sends
+   the same reload down the restart path. *)
+Theorem C09_exact_multiset_refuted_legacy :
+  exists s, run (step (ms_pool false)) init ms_sched = Some s /\
+            fsm s = FRunning /\ reload_mu s = None /\ good_pool (ms_pool false) /\
+            Forall (good_label (ms_pool false)) ms_sched /\
+            ids (entries_of s) = [0; 1; 1]%N /\ map k_child (cur_kids s) = [0; 0; 1]%N /\
+            ~ Permutation (ids (entries_of s)) (map k_child (cur_kids s)) /\
+            (forall c, In c (ids (entries_of s)) <-> In c (map k_child (cur_kids s))) /\
+            run (step (ms_pool true)) init (firstn 13 ms_sched) = None /\
+            (exists s1, run (step (ms_pool true)) init (firstn 12 ms_sched) = Some s1 /\
+                        rel_pc 0 s1 = Some RStopBegin).
+Proof. exact exact_multiset_refuted_legacy. Qed.
+
+(* [good_pool] cannot be dropped - H4 of the second audit, recorded finding
+   same-name-different-object:inplace-reload: with two DISTINCT runnables x, x' of equal String(), Reload([x'])
+   on configuration [x] is taken in place: x' (never started) receives ReloadWithConfig and becomes the
+   configuration, x keeps running outside it (neither the multiset nor the set form of C09_exact holds);
+   Stop() then makes Run() call Stop() on x', which (blocking style) waits for a Run that never started: no
+   internal step, no child-owed step and no return is enabled - Run() and Stop() hang *)
+Theorem C09_exact_refuted_without_good_pool :
+  ~ good_pool h4_pool /\ Forall (good_label h4_pool) h4_sched /\
+  membership_changed h4_pool [(0, 0)]%N [(1, 1)]%N = false /\
+  (exists s, run (step h4_pool) init (firstn 14 h4_sched) = Some s /\
+             fsm s = FRunning /\ reload_mu s = None /\
+             ids (entries_of s) = [1%N] /\ map k_child (cur_kids s) = [0%N] /\
+             ~ (forall c, In c (ids (entries_of s)) <-> In c (map k_child (cur_kids s))) /\
+             option_map r_calls (nth_error (reloaders s) 0) = Some [(1%N, Some 1%N)]) /\
+  (exists s, run (step h4_pool) init h4_sched = Some s /\
+             runt s = TStopWait /\ nth_error (stoppers s) 0 = Some SWaiting /\
+             option_map w_pc (nth_error (workers s) 0) = Some WCalled /\ ever 1%N s = false /\
+             forallb kdone (kids s) = true /\
+             none_enabled h4_pool s (taus s ++ [LWRet 0 1%N; LSRet 0; LRunRet None]) = true).
+Proof. exact exact_refuted_without_good_pool. Qed.
 
 (* the second half holds at every moment of every schedule, not only while Running ... *)
 Theorem C09_older_generations_finished : forall P s,
@@ -168,6 +215,9 @@ Print Assumptions C09_older_generations_finished.
 Print Assumptions C09_all_finished_before_reboot.
 Print Assumptions C09_reload_mutex.
 Print Assumptions C09_exact.
+Print Assumptions C09_exact_multiset.
+Print Assumptions C09_exact_multiset_refuted_legacy.
+Print Assumptions C09_exact_refuted_without_good_pool.
 Print Assumptions C09_exact_at_boot.
 Print Assumptions C09_stop_targets_launched.
 Print Assumptions C09_none_survive.
@@ -182,7 +232,7 @@ Print Assumptions C09_incremental_acceptor_sound.
    and boot(new); Run() waits for reloadMu, the reload boots, Run() then stops everything and
    returns; every hypothesis of C09_live holds along the way *)
 Definition cur_params : params :=
-  mkParams [mkSpec 0 UntilRunDone OnSignal RWC; mkSpec 1 UntilRunDone OnSignal RWC] true true true true.
+  mkParams [mkSpec 0 UntilRunDone OnSignal RWC; mkSpec 1 UntilRunDone OnSignal RWC] true true true true true.
 
 Definition ex_sched : list label :=
   [LRunCall; LRunBegin; LBootLock ORun; LCb ORun (CbSome [(0, 0)]%N); LBootLaunch ORun; LToRunning;
@@ -321,7 +371,7 @@ Qed.
    children that fail: child 1 may return at any time): child 1 has failed, Run() has taken the
    failure, a Reload() caller has not returned - and a step is enabled *)
 Definition lf_params (lc : bool) : params :=
-  mkParams [mkSpec 0 UntilRunDone OnSignal RWC; mkSpec 1 UntilRunDone Free RWC] true true true lc.
+  mkParams [mkSpec 0 UntilRunDone OnSignal RWC; mkSpec 1 UntilRunDone Free RWC] true true true lc true.
 Definition lf_sched : list label :=
   [LRunCall; LRunBegin; LBootLock ORun; LCb ORun (CbSome [(0, 0); (1, 0)]%N); LBootLaunch ORun; LToRunning;
    LKRun 0 0%N; LKRun 1 1%N; LReloadCall 0;
